@@ -106,6 +106,13 @@ def run_shard(spec, res):
                         if r5.get('delivered'):
                             res.count('keyed_over_duplicated_keys_delivered')
                         on_run(sc5, r5)
+                    if not key and entry in ('pf1', 'pft', 'parmap'):
+                        # complete passes over the same object while this
+                        # iterator is suspended
+                        for passes in (1, 3):
+                            sc6 = dict(sc, nested=passes)
+                            on_run(sc6, conc.run(sc6, D.starve_consumer_chooser()))
+                            res.count('executions_with_nested_passes')
                     if not key and entry in ('pf1', 'pft', 'parmap', 'chain'):
                         sc4 = dict(sc, neighbour=True)
                         on_run(sc4, conc.run(sc4, D.starve_consumer_chooser()))
